@@ -6,7 +6,7 @@ open GuppyVerif.Dataflow
 
 /-- the successor list whose edges `check_cfg` enqueues for block `b` -/
 def followed (U : UCfg) (b : Blk) : List Blk :=
-  if b = U.entry then U.succ b ++ U.dsucc b else U.succ b
+  U.succ b ++ U.dsucc b
 
 theorem enumFrom_mem {p : Blk} {k i : Nat} {s : Blk} {ss : List Blk} (h : ss[i]? = some s) :
     (p, k + i, s) ∈ enumFrom p k ss := by
@@ -139,10 +139,8 @@ theorem bfs_complete {U : UCfg} (hU : U.WF) {A : Ana} (hA : AnaOK U A) :
           · obtain ⟨hp', hs'⟩ := mem_revEnum hm
             subst hp'
             refine ⟨rowFor A env p', outsOf U A p' (rowFor A env p'), by rw [findC_cons]; simp, ?_, ?_⟩
-            · rw [List.getElem?_append_left]
-              · exact hs'
-              · exact (List.getElem?_eq_some_iff.mp hs').1
-            · exact Or.inl (List.mem_of_getElem? hs')
+            · exact hs'
+            · exact List.mem_of_getElem? hs'
         · intro b' row' outs' hf' i' s' hs'
           rw [findC_cons] at hf'
           split at hf'
@@ -150,8 +148,6 @@ theorem bfs_complete {U : UCfg} (hU : U.WF) {A : Ana} (hA : AnaOK U A) :
             cases hf'; subst hb'
             left
             rw [List.mem_append]; right
-            have : followed U b' = U.succ b' := by unfold followed; simp [hbne]
-            rw [this] at hs'
             exact revEnum_mem hs'
           · rcases he b' row' outs' hf' i' s' hs' with hm | ⟨rs, os, r, hfs, hr, hmm⟩
             · rw [List.mem_cons] at hm
@@ -185,8 +181,7 @@ theorem tyAt_mem {U : UCfg} (hU : U.WF) {x : Var} {b : Blk} {o : Option Ty} (h :
   induction h with
   | entry => exact ⟨hU.entry_mem, fun h => args_sub_AS ((args_lookup_isSome U x).mp h)⟩
   | @edge p s o _ he ih =>
-    have hs : s ∈ U.succ p ++ U.dsucc p := by
-      rw [List.mem_append]; exact he.imp id (·.2)
+    have hs : s ∈ U.succ p ++ U.dsucc p := he
     refine ⟨hU.cfg.closed _ ih.1 _ hs, fun h => ?_⟩
     unfold exitTy at h
     cases hl : lastAsg x (U.events p) with
@@ -206,21 +201,9 @@ theorem tyAt_agrees {U : UCfg} (hU : U.WF) {A : Ana} (hA : AnaOK U A) {c : Compi
     obtain ⟨rowp, outsp, hfp, hagree⟩ := ih
     obtain ⟨hpb, hrp, houts, hsucc, _⟩ := hc p rowp outsp hfp
     -- index of the edge
-    have hs : s ∈ followed U p := by
-      unfold followed
-      rcases hedge with h | ⟨hp, h⟩
-      · split
-        · exact List.mem_append_left _ h
-        · exact h
-      · simp only [hp, ↓reduceIte]; rw [← hp]; exact List.mem_append_right _ h
+    have hs : s ∈ followed U p := hedge
     obtain ⟨i, hi⟩ := List.getElem?_of_mem hs
-    have hidx : (U.succ p ++ U.dsucc p)[i]? = some s := by
-      unfold followed at hi
-      split at hi
-      · exact hi
-      · rw [List.getElem?_append_left]
-        · exact hi
-        · exact (List.getElem?_eq_some_iff.mp hi).1
+    have hidx : (U.succ p ++ U.dsucc p)[i]? = some s := hi
     rcases he p rowp outsp hfp i s hi with hm | ⟨rs, os, r, hfs, hr, hmm⟩
     · cases hm
     · refine ⟨rs, os, hfs, fun hl hAS => ?_⟩
